@@ -112,3 +112,12 @@ Example lig_insert_example :
 Proof. vm_compute. repeat split; reflexivity. Qed.
 Example lig_insert_panics : lig_insert [[]] 0 [None; Some 7] = None.
 Proof. reflexivity. Qed.
+
+(* accepted {1,2}; {2,3} rejected for overlap; {3,4} shares only the non-conflicting glyph of the rejected class: accepted
+   (the input of seeded mutant C16/m12, which leaves 3 in all_glyphs and rejects the third call) *)
+Example checked_add_sequence_example :
+  let s1 := cdb_checked_add [] [1; 2] in
+  let '(r2, s2) := cdb_checked_add_ret s1 [2; 3] in
+  let '(r3, s3) := cdb_checked_add_ret s2 [3; 4] in
+  r2 = false /\ r3 = true /\ s3 = [[1; 2]; [3; 4]] /\ cdb_class_of false s3 3 = 2 /\ cdb_class_of false s3 2 = 1 /\ cdb_class_of false s3 9 = 0.
+Proof. vm_compute. repeat split; reflexivity. Qed.
